@@ -430,6 +430,106 @@ Lemma append_ops_frame st b new : st_idents (append_ops st b new) = st_idents st
   map bg_id (st_bugs (append_ops st b new)) = map bg_id (st_bugs st).
 Proof. cbn. repeat split. rewrite map_map. apply map_ext. intros x. destruct (bg_id x =? b); reflexivity. Qed.
 
+(* ---- the effect of each current mutation, spelled out ---- *)
+
+Lemma resolve_comment_unique st a b c : resolve_m MEditComment st a = Ok (TComment b c) ->
+  filter (fun bc => is_prefix (a_prefix a) (combined (fst bc) (snd bc))) (flat_map comments_of (st_bugs st)) = [(b, c)].
+Proof. unfold resolve_m. destruct (a_wf a); cbn; [|discriminate]. destruct (a_repo_ok a); cbn; [|discriminate].
+  destruct (filter _ _) as [|[x y] [|z t]]; try discriminate. intros H. inversion H. reflexivity. Qed.
+
+Ltac effect_tac H :=
+  let u := fresh "u" in let tgt := fresh "tgt" in let b := fresh "b" in let new := fresh "new" in
+  let I := fresh "I" in let R := fresh "R" in let Q := fresh "Q" in let E := fresh "E" in
+  destruct (mutation_ok_inv _ _ _ _ _ _ H) as (u & tgt & b & new & -> & I & R & Q & E);
+  unfold effect_m in E; rewrite Q in E; unfold commit in E;
+  exists u; split; [reflexivity|]; split; [exact I|];
+  unfold requested in Q; destruct tgt; try discriminate;
+  rewrite ?safe_cleanup in Q; cbn [negb] in Q.
+
+Lemma effect_addComment st a user st' p : mutation_step MAddComment st a user = (st', Ok p) ->
+  exists u, user = Some u /\ memN u (st_idents st) = true /\ resolve_m MAddComment st a = Ok (TBug (p_bug p)) /\
+    let new := [OComment (fresh a 0) u (cleanup (a_msg a)) (a_files a)] in
+    st' = append_ops st (p_bug p) new /\ p_snap p = compile (ops_of st (p_bug p) ++ new) /\ p_ops p = map op_id new.
+Proof. intros H. effect_tac H. inversion Q; subst. inversion E; subst. cbn. auto. Qed.
+
+Lemma effect_addCommentAndClose st a user st' p : mutation_step MAddCommentAndClose st a user = (st', Ok p) ->
+  exists u, user = Some u /\ memN u (st_idents st) = true /\ resolve_m MAddCommentAndClose st a = Ok (TBug (p_bug p)) /\
+    let new := [OComment (fresh a 0) u (cleanup (a_msg a)) (a_files a); OStatus (fresh a 1) u true] in
+    st' = append_ops st (p_bug p) new /\ p_snap p = compile (ops_of st (p_bug p) ++ new) /\ p_ops p = map op_id new.
+Proof. intros H. effect_tac H. inversion Q; subst. inversion E; subst. cbn. auto. Qed.
+
+Lemma effect_addCommentAndReopen st a user st' p : mutation_step MAddCommentAndReopen st a user = (st', Ok p) ->
+  exists u, user = Some u /\ memN u (st_idents st) = true /\ resolve_m MAddCommentAndReopen st a = Ok (TBug (p_bug p)) /\
+    let new := [OComment (fresh a 0) u (cleanup (a_msg a)) (a_files a); OStatus (fresh a 1) u false] in
+    st' = append_ops st (p_bug p) new /\ p_snap p = compile (ops_of st (p_bug p) ++ new) /\ p_ops p = map op_id new.
+Proof. intros H. effect_tac H. inversion Q; subst. inversion E; subst. cbn. auto. Qed.
+
+Lemma effect_editComment st a user st' p : mutation_step MEditComment st a user = (st', Ok p) ->
+  exists u, user = Some u /\ memN u (st_idents st) = true /\ exists c, resolve_m MEditComment st a = Ok (TComment (p_bug p) c) /\
+    let new := [OEdit (fresh a 0) u c (cleanup (a_msg a)) (a_files a)] in
+    st' = append_ops st (p_bug p) new /\ p_snap p = compile (ops_of st (p_bug p) ++ new) /\ p_ops p = map op_id new.
+Proof. intros H. effect_tac H. inversion Q; subst. inversion E; subst. cbn. eauto 10. Qed.
+
+Lemma effect_openBug st a user st' p : mutation_step MOpenBug st a user = (st', Ok p) ->
+  exists u, user = Some u /\ memN u (st_idents st) = true /\ resolve_m MOpenBug st a = Ok (TBug (p_bug p)) /\
+    let new := [OStatus (fresh a 0) u false] in
+    st' = append_ops st (p_bug p) new /\ p_snap p = compile (ops_of st (p_bug p) ++ new) /\ p_ops p = map op_id new.
+Proof. intros H. effect_tac H. inversion Q; subst. inversion E; subst. cbn. auto. Qed.
+
+Lemma effect_closeBug st a user st' p : mutation_step MCloseBug st a user = (st', Ok p) ->
+  exists u, user = Some u /\ memN u (st_idents st) = true /\ resolve_m MCloseBug st a = Ok (TBug (p_bug p)) /\
+    let new := [OStatus (fresh a 0) u true] in
+    st' = append_ops st (p_bug p) new /\ p_snap p = compile (ops_of st (p_bug p) ++ new) /\ p_ops p = map op_id new.
+Proof. intros H. effect_tac H. inversion Q; subst. inversion E; subst. cbn. auto. Qed.
+
+Lemma effect_setTitle st a user st' p : mutation_step MSetTitle st a user = (st', Ok p) ->
+  exists u, user = Some u /\ memN u (st_idents st) = true /\ resolve_m MSetTitle st a = Ok (TBug (p_bug p)) /\
+    empty (cleanup1 (a_title a)) = false /\
+    let new := [OTitle (fresh a 0) u (cleanup1 (a_title a)) (title_was (ops_of st (p_bug p)))] in
+    st' = append_ops st (p_bug p) new /\ p_snap p = compile (ops_of st (p_bug p) ++ new) /\ p_ops p = map op_id new.
+Proof. intros H. effect_tac H. destruct (empty (cleanup1 (a_title a))) eqn:Em; cbn in Q; [discriminate|].
+  destruct (negb (safe1 (cleanup1 (a_title a))) || negb (safe1 (title_was (ops_of st b0)))); [discriminate|].
+  inversion Q; subst. inversion E; subst. cbn. auto 10. Qed.
+
+Lemma effect_changeLabels st a user st' p : mutation_step MChangeLabels st a user = (st', Ok p) ->
+  exists u, user = Some u /\ memN u (st_idents st) = true /\ resolve_m MChangeLabels st a = Ok (TBug (p_bug p)) /\
+    let cur := sn_labels (compile (ops_of st (p_bug p))) in
+    let added := dedup_keep (fun x => negb (memT x cur)) (map cleanup1 (a_added a)) [] in
+    let removed := dedup_keep (fun x => memT x cur) (map cleanup1 (a_removed a)) [] in
+    let new := [OLabels (fresh a 0) u added removed] in
+    (added <> [] \/ removed <> []) /\ existsb empty added = false /\ existsb empty removed = false /\
+    st' = append_ops st (p_bug p) new /\ p_snap p = compile (ops_of st (p_bug p) ++ new) /\ p_ops p = map op_id new.
+Proof. intros H. effect_tac H.
+  set (cur := sn_labels (compile (ops_of st b0))) in *.
+  set (ad := dedup_keep (fun x => negb (memT x cur)) (map cleanup1 (a_added a)) []) in *.
+  set (rm := dedup_keep (fun x => memT x cur) (map cleanup1 (a_removed a)) []) in *.
+  assert (NE : ad <> [] \/ rm <> []).
+  { destruct ad; [destruct rm; [discriminate|right; discriminate]|left; discriminate]. }
+  assert (Q' : (if existsb empty ad || existsb empty rm || negb (forallb safe1 ad) || negb (forallb safe1 rm)
+                then Err EOther else Ok (b0, [OLabels (fresh a 0) u ad rm])) = Ok (b, new)).
+  { destruct ad; [destruct rm; [discriminate|exact Q]|exact Q]. }
+  destruct (existsb empty ad) eqn:E1; [discriminate|]. destruct (existsb empty rm) eqn:E2; [discriminate|]. cbn in Q'.
+  destruct (negb (forallb safe1 ad) || negb (forallb safe1 rm)); [discriminate|].
+  inversion Q'; subst b new. inversion E; subst. cbn. subst cur ad rm. auto 10. Qed.
+
+Lemma effect_newBug st a user st' p : mutation_step MNewBug st a user = (st', Ok p) ->
+  exists u, user = Some u /\ memN u (st_idents st) = true /\ a_wf a = true /\ a_repo_ok a = true /\
+    empty (cleanup1 (a_title a)) = false /\
+    let new := [OCreate (fresh a 0) u (cleanup1 (a_title a)) (cleanup (a_msg a)) (a_files a)] in
+    p_bug p = fresh a 0 /\
+    st' = {| st_bugs := st_bugs st ++ [{| bg_id := fresh a 0; bg_ops := new |}]; st_idents := st_idents st; st_blobs := st_blobs st |} /\
+    p_snap p = compile new /\ p_ops p = map op_id new.
+Proof. intros H. effect_tac H. rewrite ?safe1_cleanup1 in Q. cbn [negb] in Q. rewrite !orb_false_r in Q.
+  destruct (empty (cleanup1 (a_title a))) eqn:Em; [discriminate|].
+  inversion Q; subst. inversion E; subst. cbn.
+  unfold resolve_m in R. destruct (a_wf a); [|discriminate]. destruct (a_repo_ok a); [|discriminate]. auto 12. Qed.
+
+(* a request of a known user on a resolved target that passes validation is carried out *)
+Lemma accepted m st a u tgt b new : memN u (st_idents st) = true -> resolve_m m st a = Ok tgt ->
+  requested m st tgt u a = Ok (b, new) -> exists st' p, mutation_step m st a (Some u) = (st', Ok p) /\ p_bug p = b /\ p_ops p = map op_id new.
+Proof. intros I R Q. unfold mutation_step, gated, ident_m. rewrite R, I. unfold effect_m. rewrite Q.
+  destruct m; unfold commit; (eexists; eexists; split; [reflexivity|split; reflexivity]). Qed.
+
 Lemma query_pure st u u' : query_step st u = (st, answer st) /\ query_step st u = query_step st u'.
 Proof. split; reflexivity. Qed.
 
@@ -437,3 +537,13 @@ Lemma query_after_refusal m st a u : snd (query_step (fst (mutation_step m st a 
 Proof. destruct (mutation_gate m st a) as [-> _]. reflexivity. Qed.
 
 End Model.
+
+(* ---- a small concrete world used by the Examples of P_C17.v ---- *)
+Definition ex_idt (n : N) : text := if n =? 1 then [97; 98; 99] else if n =? 2 then [97; 100] else if n =? 9 then [48] else [].
+Definition ex_gr (r : N) : bool := negb (is_control r).
+Definition ex_st : state :=
+  {| st_bugs := [{| bg_id := 1; bg_ops := [OCreate 1 7 [116] [109] []] |}; {| bg_id := 2; bg_ops := [OCreate 2 8 [117] [] []] |}];
+     st_idents := [7; 8]; st_blobs := [] |}.
+Definition ex_args : args :=
+  {| a_wf := true; a_repo_ok := true; a_prefix := [97; 98]; a_title := [32; 104; 105; 1]; a_msg := [13; 10; 111; 107; 32];
+     a_files := [5]; a_added := [[108]; [108]]; a_removed := []; a_fresh := [9; 10] |}.
